@@ -6,7 +6,7 @@ import vlib
 def translator_selfcheck(ck, rb, mism, n=1):
     try:
         h = rb.compile_harness(os.path.join(vlib.VERIF, "harness", "h_leaf.c"), os.path.join(vlib.scratch(), "h_leaf"),
-                               objs=["cdb.a", "cdbmake.a", "case.a", "fs.a", "str.a"])
+                               objs=["ip.o", "cdb.a", "cdbmake.a", "case.a", "fs.a", "stralloc.a", "error.a", "str.a"])
     except vlib.HarnessBuildError as e:
         mism.append(dict(kind="translator", what="harness/h_leaf.c does not build", log=str(e)[-600:])); return
     try:
@@ -30,6 +30,8 @@ def translator_selfcheck(ck, rb, mism, n=1):
               "case_diffs %s %s" % (hx(nz(s)), hx(nz(t))), "case_starts %s %s" % (hx(nz(s)), hx(nz(t[:rng.randint(0, len(t))]))), "fmt_str " + hx(nz(s))]
         u = rng.choice([0, 1, 9, 10, 99, 100, 4294967295, 4294967296, 18446744073709551615, rng.getrandbits(64), rng.getrandbits(20)])
         d = rng.choice([b"", b"0", b"007", b"12345", b"18446744073709551615", b"18446744073709551616", b"99999999999999999999999", b"12x", b"x", b"777", b"1777777777777777777777", b"89"])
+        ipt = rng.choice([b"1.2.3.4", b"[127.0.0.1]", b"[300.1.1.1]x", b"[1.2.3]", b"[1.2.3.4", b"[]", b"", b"[1..2.3]", b"[18446744073709551617.0.0.1]", b"[1.2.3.4]]", b"[01.002.3.4]", b"9.9.9.9.9"])
+        L += ["ip_scan " + hx(ipt.strip(b"[")), "ip_scanbracket " + hx(ipt), "ip_fmt " + hx(rb_(4)), "quote_doit " + hx(rb_(rng.choice([0, 1, 2, 5, 40]), rng.choice([None, b'ab"\\\r\n']))) ]
         L += ["hashadd %d %d" % (u % 2 ** 32, rng.randrange(256)), "unpack " + hx(rb_(4)), "pack %d" % (u % 2 ** 32), "scan_ulong " + hx(d + rng.choice([b"", b" ", b"a"])),
               "scan_8long " + hx(d), "fmt_ulong %d" % u, "fmt_uint0 %d %d" % (u % 2 ** 32, rng.choice([0, 1, 5, 12, 20]))]
     a, _, _ = vlib.run_lines(h, L)
